@@ -23,10 +23,11 @@ def skipWs : List Nat → List Nat
   | [] => []
   | c :: cs => if isWhitespace c then skipWs cs else c :: cs
 
-/-- Inside `// …`: up to, not including, the line feed (lexer.rs:467-475). -/
+/-- Inside `// …`: up to, not including, the vertical space that ends the line (lexer.rs:467-476;
+any of U+000A … U+000D since the repair 20fca88, the line feed only before it). -/
 def skipLine : List Nat → List Nat
   | [] => []
-  | c :: cs => if c == 0x0A then c :: cs else skipLine cs
+  | c :: cs => if isVerticalSpace c then c :: cs else skipLine cs
 
 /-- Inside `/* …`: through the first `*/` (lexer.rs:476-487). -/
 def skipBlock : List Nat → List Nat
@@ -91,19 +92,21 @@ def noClose : List Nat → Bool
       | d :: _ => !(c == 0x2A && d == 0x2F)
       | [] => true) && noClose cs
 
-def noLf (g : List Nat) : Bool := g.all (fun c => c != 0x0A)
+/-- No vertical space inside (grammar: a line comment is `//` and characters other than vertical space). -/
+def noVertical (g : List Nat) : Bool := g.all (fun c => !isVerticalSpace c)
 
-/-- A comment: `// body` closed by a line feed, or `/* body */`. -/
+/-- A comment: `// body` closed by a vertical space `eol` (line feed, vertical tab, form feed or carriage
+return — a CR LF pair is the comment closed by CR followed by the white space LF), or `/* body */`. -/
 inductive Comment where
-  | line (body : List Nat)
+  | line (body : List Nat) (eol : Nat)
   | block (body : List Nat)
 
 def Comment.ok : Comment → Bool
-  | .line body => noLf body
+  | .line body eol => noVertical body && isVerticalSpace eol
   | .block body => noClose body
 
 def Comment.text : Comment → List Nat
-  | .line body => 0x2F :: 0x2F :: (body ++ [0x0A])
+  | .line body eol => 0x2F :: 0x2F :: (body ++ [eol])
   | .block body => 0x2F :: 0x2A :: (body ++ [0x2A, 0x2F])
 
 /-- What may stand between two tokens: runs of white space and comments, in any number and
